@@ -99,7 +99,19 @@ func init() {
 			return append(fs, Failure{Kind: "oracle", Key: "rng-transient-baseline-fails", Desc: err.Error()})
 		}
 		total := randCalls
-		defer func() { randFailAt = 0 }()
+		base, _ := run()
+		defer func() { randFailAt, randShortAt = 0, 0 }()
+		// a legal short read (fewer bytes than asked, nil error) at any single Read call must not change
+		// anything: the same bytes of the source are consumed in the same order
+		for k := 1; k <= total; k++ {
+			randShortAt = k
+			out, err := run()
+			if err != nil || !bytes.Equal(out, base) {
+				fs = append(fs, Failure{Kind: "oracle", Key: "rng-short-read-changes-output-" + c.A["kind"], Desc: fmt.Sprintf("%s with %d recipients: Read call %d of %d on the randomness source returned fewer bytes than asked (nil error); the operation gave err=%v and %s output than with full reads (secret material not taken from the source?)", c.A["kind"], nr, k, total, err, map[bool]string{true: "the same", false: "a DIFFERENT"}[bytes.Equal(out, base)])})
+				break
+			}
+		}
+		randShortAt = 0
 		for k := 1; k <= total; k++ {
 			randFailAt = k
 			out, err := run()
